@@ -379,6 +379,115 @@ def replay_dist(name):
     return bool(bad), "; ".join(bad[:2]) or "eager, jit, vmap and repeated calls agree on the replay points"
 
 
+def _transplant_pairs():
+    """(name, factory(variant)) : the same model class constructed twice with DIFFERENT constructor arguments that all end up in array leaves"""
+    import jax.numpy as jnp
+    import jax.random as jr
+    import equinox as eqx
+    import flowjax.distributions as fd
+    import flowjax.bijections as fb
+    from flowjax import flows
+    v = jnp.array
+    return {
+        "Normal": lambda k: fd.Normal(v([0.3, -0.2]) + k, v([1.5, 0.7]) * (1 + k)),
+        "Uniform": lambda k: fd.Uniform(v([0.0, -1.0]) - k, v([1.0, 2.0]) + k),
+        "StudentT": lambda k: fd.StudentT(v([2.5]) + k, v([0.3]) - k, v([1.5]) + k),
+        "Exponential": lambda k: fd.Exponential(v([1.5, 0.7]) * (1 + k)),
+        "VmapMixture": lambda k: fd.VmapMixture(eqx.filter_vmap(fd.Normal)(v([0.0, 1.5]) + k, v([1.0, 0.6]) + k), v([1.0, 3.0]) if k == 0 else v([0.2, 0.5])),
+        "MultivariateNormal": lambda k: fd.MultivariateNormal(v([0.3, -0.2]) + k, v([[2.0, 0.3], [0.3, 1.0]]) * (1 + k)),
+        "Transformed(Normal, RationalQuadraticSpline)": lambda k: fd.Transformed(fd.Normal(v(0.1) + k, v(1.2) + k), fb.RationalQuadraticSpline(knots=2, interval=3)),
+        "coupling_flow": lambda k: flows.coupling_flow(jr.PRNGKey(k), base_dist=fd.StandardNormal((2,)), flow_layers=1, nn_width=2),
+        "masked_autoregressive_flow(cond)": lambda k: flows.masked_autoregressive_flow(jr.PRNGKey(5 + k), base_dist=fd.StandardNormal((2,)), cond_dim=1, flow_layers=1, nn_width=2),
+    }
+
+
+def ob_transplant(names):
+    """behaviour is a function of the pytree leaves only (what flatten/unflatten and leaf (de)serialisation into a freshly constructed model
+    rely on): two models of the same class built with different constructor arguments, given the SAME symbolic leaves, have identical
+    log_prob and sample terms - nothing of the constructor arguments may survive outside the leaves (closures, static fields)"""
+    import jax
+    jax.config.update("jax_enable_x64", True)
+    import jax.numpy as jnp
+    import jax.random as jr
+    from .. import jx
+    from ..jx import Ctx, Interp, set_path
+    from ..sym import f64, leaves_of, symarr, trace
+    from . import c03
+    out = []
+    P = _transplant_pairs()
+    for nm in names:
+        name = f"C14/{nm}: a freshly constructed model given another model's leaves behaves identically (log_prob and sample depend on the leaves only)"
+        rp = dict(func="c14:replay_transplant", kwargs=dict(nm=nm))
+        m0, m1 = f64(P[nm](0)), f64(P[nm](1))
+        l0, mk0, p0 = leaves_of(m0)
+        l1, mk1, p1 = leaves_of(m1)
+        if [tuple(a.shape) for a in l0] != [tuple(a.shape) for a in l1] or p0 != p1:
+            out.append(rec(name, "error", detail="the two constructions do not have the same leaf structure"))
+            continue
+        syms = [symarr(f"p{i}", l.shape) for i, l in enumerate(l0)]
+        x = symarr("x", m0.shape)
+        key = symarr("k", (2,), z3.IntSort())
+        c = None if m0.cond_shape is None else symarr("c", m0.cond_shape)
+        cex = [] if c is None else [jnp.zeros(m0.cond_shape)]
+        cs = [] if c is None else [c]
+        ctx = Ctx()
+        I = Interp(ctx)
+        pre = [q > 0 for sy, pth in zip(syms, p0) if pth.endswith("scale") for q in sy.ravel()]
+        set_path(pre, ctx.facts)
+        bad = None
+        try:
+            for label, f, ex, args in (("log_prob", lambda mk: (lambda ls, xv, *cc: mk(ls).log_prob(xv, *cc)), [l0, jnp.zeros(m0.shape) + 0.3] + cex, syms + [x] + cs),
+                                       ("sample", lambda mk: (lambda ls, k, *cc: mk(ls).sample(k, (), *cc)), [l0, jr.PRNGKey(0)] + cex, syms + [key] + cs)):
+                a = I.run(trace(f(mk0), *ex), *args)
+                b = I.run(trace(f(mk1), *ex), *args)
+                c03.PRE[:] = pre
+                st, m, where = c03._cmp(nm, "transplant " + label, ctx, b[0], a[0])
+                if st != "unsat":
+                    bad = (label, st, where)
+                    break
+        except jx.Unsupported as e:
+            set_path(None)
+            out.append(rec(name, "error", detail=f"unsupported: {e}"))
+            continue
+        set_path(None)
+        if bad is None:
+            out.append(rec(name, "discharged", vacuity=True))
+        else:
+            ok, msg = replay_transplant(nm)
+            out.append(rec(name, "violation" if ok else "inconclusive", detail=f"{bad[0]}: {bad[1]} at {bad[2]} | {msg}", replay=rp))
+    return out
+
+
+def replay_transplant(nm):
+    """real objects: serialise the leaves of model A, deserialise them into a freshly constructed model B (different constructor arguments),
+    compare behaviour - the round trip the property describes (equinox.tree_serialise_leaves through an in-memory buffer)"""
+    import io
+    import jax
+    jax.config.update("jax_enable_x64", True)
+    import jax.numpy as jnp
+    import jax.random as jr
+    import equinox as eqx
+    from ..sym import f64
+    P = _transplant_pairs()
+    a, like = f64(P[nm](0)), f64(P[nm](1))
+    buf = io.BytesIO()
+    eqx.tree_serialise_leaves(buf, a)
+    buf.seek(0)
+    b = eqx.tree_deserialise_leaves(buf, like)
+    c = () if a.cond_shape is None else (jnp.full(a.cond_shape, 0.4),)
+    bad = []
+    for s_ in range(2):
+        k = jr.PRNGKey(s_)
+        xa = a.sample(k, (), *c)
+        xb = b.sample(k, (), *c)
+        if not np.allclose(np.asarray(xa), np.asarray(xb), rtol=1e-12, atol=0, equal_nan=True):
+            bad.append(f"sample(key {s_}): original {np.asarray(xa).tolist()} restored {np.asarray(xb).tolist()}")
+        la, lb = a.log_prob(xa, *c), b.log_prob(xa, *c)
+        if not np.allclose(np.asarray(la), np.asarray(lb), rtol=1e-12, atol=0, equal_nan=True):
+            bad.append(f"log_prob: original {float(la)} restored {float(lb)}")
+    return bool(bad), "; ".join(bad[:2]) or "the restored model behaves identically on the replay points"
+
+
 def ob_static_arrays():
     """no array is hidden in a static (non-leaf) field of any zoo model: after partitioning out every array leaf, no ndarray / jax.Array remains reachable"""
     import jax
@@ -443,4 +552,7 @@ def obligations(tier, seed):
     for nm in (c03.QUICK if tier == "quick" else c03.THOROUGH):
         T.append(dict(name="dist/" + nm, func="c14:ob_dist", kwargs=dict(name=nm), cost=8.0 if ("flow" in nm or "maf" in nm) else 2.0))
     T.append(dict(name="static arrays", func="c14:ob_static_arrays", kwargs={}, cost=2.0))
+    names = list(_transplant_pairs())
+    for i in range(0, len(names), 3):
+        T.append(dict(name=f"transplant/{i // 3}", func="c14:ob_transplant", kwargs=dict(names=names[i:i + 3]), cost=6.0))
     return T
